@@ -73,21 +73,18 @@ Definition raw_handle (rs : list sroute) (rq : raw_req) : result raw_outcome :=
       | None => Ok RNotRouted
       | Some (r, b) =>
           if negb (raw_modelled r) then Unmodelled (s "URL-bound field of unmodelled kind/cardinality") else
-          match bind_path (sr_fields r) (rt_pathvars (sr_route r)) b [] with
+          (* the body is bound first (GoRt.body_start); path then query values are applied on top of it;
+             bindQueryParams clears a repeated field before appending the occurrences (mset_list replaces) *)
+          match body_start (rt_body (sr_route r)) (rq_ct rq) (rq_body rq) with
           | inr f => Ok (RRejected f)
-          | inl m1 =>
-              match bind_query_raw (sr_fields r) (query_fields (sr_fields r)) (parse_query (rq_query rq)) m1 with
+          | inl m0 =>
+              match bind_path (sr_fields r) (rt_pathvars (sr_route r)) b m0 with
               | inr f => Ok (RRejected f)
-              | inl m2 =>
-                  if rt_body (sr_route r) then
-                    match rq_body rq with
-                    | Some (f, v) =>
-                        if bfmt_eqb f (server_fmt (rq_ct rq))
-                        then Ok (RDispatched (md_name (sr_md r)) v)   (* Unmarshal resets the message *)
-                        else Ok (RRejected (s "body"))
-                    | None => Ok (RDispatched (md_name (sr_md r)) m2)
-                    end
-                  else Ok (RDispatched (md_name (sr_md r)) m2)
+              | inl m1 =>
+                  match bind_query_raw (sr_fields r) (query_fields (sr_fields r)) (parse_query (rq_query rq)) m1 with
+                  | inr f => Ok (RRejected f)
+                  | inl m2 => Ok (RDispatched (md_name (sr_md r)) m2)
+                  end
               end
           end
       end
@@ -95,12 +92,11 @@ Definition raw_handle (rs : list sroute) (rq : raw_req) : result raw_outcome :=
   end.
 
 (* ---- what the property demands ----------------------------------------------------------------- *)
-(* The fields of the dispatched route that the URL binds, with the value the URL gives them. *)
-Inductive c02_defect :=
-  | C02BodyResetsUrlFields.    (* POST/PUT/PATCH with a non-empty body: URL-bound values are wiped *)
+(* No defect class is left: since the body is bound before the URL values, the URL's values reach the
+   handler whatever the body says (the former class "body-resets-url-fields" is repaired). *)
+Inductive c02_defect : Set := .
 
-Definition c02_defect_str (d : c02_defect) : str :=
-  match d with C02BodyResetsUrlFields => s "body-resets-url-fields" end.
+Definition c02_defect_str (d : c02_defect) : str := match d with end.
 
 (* the body mentions none of the URL-bound fields *)
 Definition body_omits (v : mval) (names : list str) : bool :=
@@ -109,36 +105,7 @@ Definition body_omits (v : mval) (names : list str) : bool :=
 Definition url_bound_names (r : sroute) : list str :=
   rt_pathvars (sr_route r) ++ map f_name (query_fields (sr_fields r)).
 
-(* the defect applies when a route with URL-bound fields receives a non-empty decodable body that
-   omits a field to which the URL gives a non-default value *)
-Definition defects_C02 (rs : list sroute) (rq : raw_req) : list c02_defect :=
-  match rq_path rq with
-  | c :: p =>
-      match find_route rs (rq_verb rq) (split_on slash p) with
-      | Some (r, b) =>
-          if rt_body (sr_route r) then
-            match rq_body rq with
-            | Some (f, v) =>
-                if bfmt_eqb f (server_fmt (rq_ct rq)) then
-                  match bind_path (sr_fields r) (rt_pathvars (sr_route r)) b [] with
-                  | inl m1 =>
-                      match bind_query_raw (sr_fields r) (query_fields (sr_fields r)) (parse_query (rq_query rq)) m1 with
-                      | inl m2 =>
-                          (* some field the URL populated is not mentioned by the body *)
-                          if existsb (fun kv => match mget v (fst kv) with Some _ => false | None => true end) m2
-                          then [C02BodyResetsUrlFields] else []
-                      | inr _ => []
-                      end
-                  | inr _ => []
-                  end
-                else []
-            | None => []
-            end
-          else []
-      | None => []
-      end
-  | [] => []
-  end.
+Definition defects_C02 (rs : list sroute) (rq : raw_req) : list c02_defect := [].
 
 Definition raw_outcome_json (o : raw_outcome) : json :=
   match o with
